@@ -85,3 +85,18 @@ def unparse(n):
 
 def parse_expr(s):
     return ast.parse(s, mode="eval").body
+
+
+def exact_eq(a, b):
+    """Equality that also tells apart what Python's == conflates: bool / int / float of equal
+    value, 0.0 / -0.0; containers element-wise."""
+    import math
+    if type(a) is not type(b):
+        return False
+    if isinstance(a, float):
+        return (a == b and math.copysign(1, a) == math.copysign(1, b)) or (a != a and b != b)
+    if isinstance(a, (list, tuple)):
+        return len(a) == len(b) and all(exact_eq(x, y) for x, y in zip(a, b))
+    if isinstance(a, dict):
+        return list(a.keys()) == list(b.keys()) and all(exact_eq(a[k], b[k]) for k in a)
+    return a == b
